@@ -87,6 +87,7 @@ def verdict (mode : Mode) (scripts : List (List ApiCall)) (s : St) : String :=
   else if !cutLog log then "delivered-after-close"
   else if !isClosedLog log then "isclosed-false"
   else if !waitLog log then "wait-early"
+  else if !s.sh.destNil && !terminalLog log then "terminal-lost"
   else "ok"
 
 def schedules (n : Nat) : List (List Tid) :=
